@@ -97,7 +97,9 @@ def run(pid, tier, seed):
         return verdict.finish(_ev(pid, tier, seed, t0, 0, 0, 0, [], 0))
     os.chmod(os.path.dirname(exe), 0o755)
     os.chmod(exe, 0o755)
-    tzdirs = [None, "", tzdir, os.path.join(fx, "no_such_dir")]
+    # relative values of TZDIR are resolved against the process's working directory like any other path (the driver runs in `fx`)
+    rel = os.path.relpath(tzdir, fx)
+    tzdirs = [None, "", tzdir, os.path.join(fx, "no_such_dir"), rel, "./" + rel, "no_such_rel_dir"]
     tzs = [None, "", "X", ":X", "localtime", ":localtime", "Nope/Missing", ":", "::X", "Fixed/UTC+02:00:00", abs_syd]
     # (LOCALTIME is used verbatim: a leading ':' belongs to the name)
     lts = [None, abs_syd, os.path.join(fx, "missing"), "X", "", ":" + abs_syd, ":X", "file:X"]
@@ -107,7 +109,7 @@ def run(pid, tier, seed):
     for tz_, lt in itertools.product(tzs, lts):
         if lt is not None and tz_ not in ("localtime", ":localtime", None):
             continue
-        for td in ((tzdir, None) if tier == "quick" else tzdirs):
+        for td in ((tzdir, None, rel) if tier == "quick" else tzdirs):
             envs.append((td, tz_, lt))
     envs = list(dict.fromkeys(envs))
     out = os.path.join(work, "t.0.ndjson")
@@ -131,7 +133,7 @@ def run(pid, tier, seed):
                 nclosed += 1
                 if nproc % 4 == 3:
                     e["VT_NO_LOCAL"] = "1"
-            r = subprocess.run([exe, nf, "--drop-privileges"], env=e, stdout=subprocess.PIPE, stderr=subprocess.PIPE, text=True, timeout=300)
+            r = subprocess.run([exe, nf, "--drop-privileges"], env=e, cwd=fx, stdout=subprocess.PIPE, stderr=subprocess.PIPE, text=True, timeout=300)
             nproc += 1
             if r.returncode != 0:
                 if r.returncode in (3, 4):
